@@ -198,6 +198,90 @@ func errorSwallowedSites(c *Ctx, fn *ssa.Function) []errSite {
 		}
 		out = append(out, errSite{Fn: fn, Instr: ret, Kind: what, Desc: desc, Key: fmt.Sprintf("%s/return-nil-when %s != nil", funcKey(fn), exprOfValue(errVal))})
 	}
+	// the same through a jump: `if err != nil { break }` (or goto / fallthrough to the end) where
+	// the blocks between the test and the return do nothing and the return hands back nil
+	have := map[string]bool{}
+	for _, s := range out {
+		have[s.Key] = true
+	}
+	for _, b := range fn.Blocks {
+		ifi, ok := b.Instrs[len(b.Instrs)-1].(*ssa.If)
+		if !ok || len(b.Succs) != 2 {
+			continue
+		}
+		bo, ok := ifi.Cond.(*ssa.BinOp)
+		if !ok || (bo.Op != token.NEQ && bo.Op != token.EQL) {
+			continue
+		}
+		var errVal ssa.Value
+		if isNilConst(bo.Y) && isErrorType(bo.X.Type()) {
+			errVal = bo.X
+		} else if isNilConst(bo.X) && isErrorType(bo.Y.Type()) {
+			errVal = bo.Y
+		}
+		if errVal == nil {
+			continue
+		}
+		cur := b.Succs[0]
+		if bo.Op == token.EQL {
+			cur = b.Succs[1]
+		}
+		prev := b
+		steps := 0
+		for steps < 6 {
+			steps++
+			// a block that only jumps on
+			onlyJump := true
+			for _, ins := range cur.Instrs {
+				switch ins.(type) {
+				case *ssa.Jump, *ssa.DebugRef, *ssa.Phi:
+				default:
+					onlyJump = false
+				}
+			}
+			if onlyJump && len(cur.Succs) == 1 {
+				prev, cur = cur, cur.Succs[0]
+				continue
+			}
+			break
+		}
+		if steps < 2 && len(cur.Preds) == 1 {
+			continue // the return sits in the branch itself: handled above
+		}
+		ret, ok := cur.Instrs[len(cur.Instrs)-1].(*ssa.Return)
+		if !ok || len(ret.Results) <= idx {
+			continue
+		}
+		// nothing else happens in the returning block
+		bare := true
+		for _, ins := range cur.Instrs {
+			switch ins.(type) {
+			case *ssa.Return, *ssa.DebugRef, *ssa.Phi:
+			default:
+				bare = false
+			}
+		}
+		if !bare {
+			continue
+		}
+		rv := ret.Results[idx]
+		if phi, isPhi := rv.(*ssa.Phi); isPhi && phi.Block() == cur {
+			for pi, p := range cur.Preds {
+				if p == prev {
+					rv = phi.Edges[pi]
+				}
+			}
+		}
+		if k, isK := rv.(*ssa.Const); !isK || !k.IsNil() {
+			continue
+		}
+		key := fmt.Sprintf("%s/return-nil-when %s != nil", funcKey(fn), exprOfValue(errVal))
+		if have[key] {
+			continue
+		}
+		have[key] = true
+		out = append(out, errSite{Fn: fn, Instr: ret, Kind: "swallowed", Desc: fmt.Sprintf("leaves the loop / jumps to the end on the branch where %s != nil and returns a nil error there", exprOfValue(errVal)), Key: key})
+	}
 	return out
 }
 
@@ -338,4 +422,97 @@ func recoveredReachesResult(fn, parent *ssa.Function, rec *ssa.Call) bool {
 		}
 	})
 	return ok
+}
+
+// errorTestedAfterValueSites: `v, err := f()` where a nil-test of v decides the
+// control flow before err was looked at: on the path where v is nil the error
+// is never examined (f returns (nil, err) exactly when it fails). Reported when
+// a block testing `v == nil` strictly dominates every block that tests err, and
+// err is tested at all (so the function means to check it).
+func errorTestedAfterValueSites(c *Ctx, fn *ssa.Function) []errSite {
+	var out []errSite
+	eachInstr(fn, func(ins ssa.Instruction) {
+		call, ok := ins.(*ssa.Call)
+		if !ok || call.Referrers() == nil {
+			return
+		}
+		tup, ok := call.Type().(*types.Tuple)
+		if !ok || tup.Len() < 2 || !isErrorType(tup.At(tup.Len()-1).Type()) {
+			return
+		}
+		var errExt ssa.Value
+		var vals []ssa.Value
+		for _, ref := range *call.Referrers() {
+			if ex, ok := ref.(*ssa.Extract); ok {
+				if ex.Index == tup.Len()-1 {
+					errExt = ex
+				} else {
+					vals = append(vals, ex)
+				}
+			}
+		}
+		if errExt == nil || len(vals) == 0 {
+			return
+		}
+		// blocks that test err (a comparison with nil, or handing it to errors.Is / a call, that ends in a branch)
+		var errTests []*ssa.BasicBlock
+		if refs := errExt.Referrers(); refs != nil {
+			for _, ref := range *refs {
+				switch x := ref.(type) {
+				case *ssa.BinOp:
+					if isNilConst(x.X) || isNilConst(x.Y) {
+						errTests = append(errTests, x.Block())
+					}
+				case *ssa.Call:
+					errTests = append(errTests, x.Block())
+				case *ssa.Return:
+					errTests = append(errTests, x.Block())
+				}
+			}
+		}
+		if len(errTests) == 0 {
+			return
+		}
+		for _, v := range vals {
+			if v.Referrers() == nil {
+				continue
+			}
+			for _, ref := range *v.Referrers() {
+				bo, ok := ref.(*ssa.BinOp)
+				if !ok || (bo.Op != token.EQL && bo.Op != token.NEQ) || !(isNilConst(bo.X) || isNilConst(bo.Y)) {
+					continue
+				}
+				// the comparison must be a branch condition
+				isCond := false
+				if bo.Referrers() != nil {
+					for _, r2 := range *bo.Referrers() {
+						if _, ok := r2.(*ssa.If); ok {
+							isCond = true
+						}
+					}
+				}
+				if !isCond {
+					continue
+				}
+				vb := bo.Block()
+				first := true
+				for _, eb := range errTests {
+					if eb == vb || !vb.Dominates(eb) {
+						first = false
+					}
+				}
+				if !first {
+					continue
+				}
+				name := calleeName(&call.Call)
+				if name == "" {
+					name = "func-value"
+				}
+				out = append(out, errSite{Fn: fn, Instr: bo, Kind: "value-before-error",
+					Desc: fmt.Sprintf("the result of %s is tested against nil before its error is looked at: on the path where the value is nil the error is never examined", shortCallee(name)),
+					Key:  fmt.Sprintf("%s/%s value-tested-before-error", funcKey(fn), shortCallee(name))})
+			}
+		}
+	})
+	return out
 }
